@@ -56,6 +56,7 @@ GhostInit(S) ==
     grants   |-> {},                      \* <<voter, term, candidate>>
     dur      |-> [n \in S |-> <<0, 0, "">>],   \* durable <<CurrentTerm, LastVoteTerm, LastVoteCand>>, tracked write by write
     hpend    |-> [n \in S |-> <<>>],      \* handle lines not yet matched with a state line
+    fprace   |-> [n \in S |-> FALSE],     \* a heartbeat was handled (fast path) while n's main goroutine is inside a store write
     fsmLast  |-> [n \in S |-> 0],         \* last index handed to the FSM in this epoch
     fsmOpen  |-> [n \in S |-> <<0, 0>>],  \* snapshot last opened
     bases    |-> {[idx |-> 0, content |-> <<>>]},   \* FSM-content baselines (user restores add to it)
@@ -310,8 +311,13 @@ DoState(ln) ==
       known  == g.reported @@ agreed      \* committed as far as anybody was told, or by the omniscient definition
       started == ln.ev = "state" /\ Has(ln, "cause") /\ ln.cause = "started"
       \* ---- predicates
-      vTerm  == (IF post.ct >= pre.ct THEN {} ELSE {<<"C06", "DurableTermDecreased", <<n, pre.ct, post.ct>>>>})
-                \cup (IF sameInc /\ post.term < pre.term THEN {<<"C06", "TermDecreased", <<n, pre.term, post.term>>>>} ELSE {})
+      \* finding 20: the heartbeat fast path adopted a newer term while the main goroutine was inside setCurrentTerm with an
+      \* older one; when that write completes the term goes back. Identified by its history: a heartbeat handled while the
+      \* main goroutine is parked in a store write, the decrease at the completion of that write.
+      busyNow == Has(ln, "busy") /\ ln.busy
+      fpr     == g.fprace[n] \/ (busyNow /\ ln.ev = "state" /\ \E k \in 1..Len(g.hpend[n]) : g.hpend[n][k].kind = "hb")
+      vTerm  == (IF post.ct >= pre.ct THEN {} ELSE {<<"C06", (IF fpr THEN "DurableTermDecreasedByFastPathRace" ELSE "DurableTermDecreased"), <<n, pre.ct, post.ct>>>>})
+                \cup (IF sameInc /\ post.term < pre.term THEN {<<"C06", (IF fpr THEN "TermDecreasedByFastPathRace" ELSE "TermDecreased"), <<n, pre.term, post.term>>>>} ELSE {})
                 \cup (IF post.up /\ post.term > post.ct THEN {<<"C06", "TermNotDurable", <<n, post.term, post.ct>>>>} ELSE {})
       vCommit == (IF post.up /\ post.commit > post.last THEN {<<"C05", "CommitBeyondLast", <<n, post.commit, post.last>>>>} ELSE {})
                  \cup (IF sameInc /\ post.commit < pre.commit THEN {<<"C05", "CommitDecreased", <<n, pre.commit, post.commit>>>>} ELSE {})
@@ -368,6 +374,7 @@ DoState(ln) ==
   IN
   /\ obs' = o2 /\ dlog' = dl2 /\ dsnaps' = ds2
   /\ g' = [g EXCEPT !.agreed = ag2, !.reported = rep2, !.hpend[n] = <<>>, !.slog[n] = postLog,
+                    !.fprace[n] = busyNow /\ fpr /\ post.up,
                     !.starting = IF started THEN @ \ {n} ELSE @,
                     !.tn[n] = IF selfUp /\ byXfer THEN <<@[1], @[2] + 1>> ELSE IF ~sameInc THEN <<0, 0>> ELSE @,
                     !.dur[n] = <<post.ct, post.vt, post.vc>>,
